@@ -44,5 +44,15 @@ func TestSweep(t *testing.T) {
 			}
 		}
 	}
+	// wide frames (16, 32, 64, 65 channels): growth lands on runtime size classes that need not be multiples of the frame
+	for _, tn := range []string{"int8", "int32", "float64", "uint64"} {
+		for _, C := range []int{16, 32, 64, 65} {
+			for have := 0; have <= env.Pick(20, 40); have++ {
+				for _, add := range []int{1, 2, 5, 10, 17} {
+					Oracle.One(t, env, rec, "sweep", &Case{T: tn, C: C, Kr: have, A: 0, B: have, Srcs: []Src{{Kind: "sep", Kr: add, A: 0, B: add}}})
+				}
+			}
+		}
+	}
 	rec.Exhaustive("6 types x C<=3 x root<=3(4) frames x all destination windows x all admissible sources (self, separate 0..spare+2 frames, every root window before the spare region) x {none, self, 1-frame, 3-frame} second append", true)
 }
